@@ -1,5 +1,6 @@
-(* Boolean deciders for the fragment (struct_ok, adm) with soundness, so that membership of concrete shipped structs and
-   values is a kernel computation. *)
+(* Boolean deciders for the fragment (struct_okb: flat / based / based-without-size structs, lorderedb: member lists with an optional
+   union block, factory_okb, admfb / admb: values) with soundness, so that membership of concrete shipped structs and values is a
+   kernel computation. *)
 From Symv Require Import Base.Bytes Base.PyOps Cats.Layout Cats.LayoutInst Cats.StructProofs Cats.StructRoundTrip.
 From Coq Require Import Lia ZifyBool.
 Open Scope string_scope.
@@ -43,6 +44,7 @@ Definition deps_okb (seen : list field) (proc : list string) (f : field) : bool 
   | Some (MkVarSized _ n) =>
     existsb (fun c => String.eqb (f_name c) n &&
                       match classify tm allfs c with Some (MkByteSize _ g) => String.eqb (f_name g) (f_name f) | _ => false end) seen
+  | Some (MkArm _ _ _ _ _) => false
   | Some _ => true
   | None => false
   end.
@@ -90,7 +92,7 @@ Proof.
                       match classify tm allfs c with Some (MkCount _ g) => String.eqb (f_name g) (f_name f) | _ => false end) seen = true ->
                     size_member_seen tm allfs seen f n).
   { intros n Hex. apply existsb_exists in Hex as (c & Hc & Hex). apply Bool.andb_true_iff in Hex as [Hn Hg].
-    apply String.eqb_eq in Hn. destruct (classify tm allfs c) as [[| |i g| | | | | | | | | | | | |]|] eqn:Hcl; try discriminate.
+    apply String.eqb_eq in Hn. destruct (classify tm allfs c) as [[| |i g| | | | | | | | | | | | | |]|] eqn:Hcl; try discriminate.
     apply String.eqb_eq in Hg. exists c, i. repeat split; [exact Hc | exact Hn|].
     pose proof (classify_facts tm allfs c _ Hcl) as F. cbn [kind_facts] in F. destruct F as (_ & _ & _ & _ & Hb & _).
     now rewrite (same_name_same_field f g Hf (bound_field_in c g Hb) Hg) in Hcl. }
@@ -98,24 +100,25 @@ Proof.
   - now apply Hcount.
   - now apply Hcount.
   - apply existsb_exists in H as (c & Hc & Hex). apply Bool.andb_true_iff in Hex as [Hn Hg]. apply String.eqb_eq in Hn.
-    destruct (classify tm allfs c) as [[| | | | | | |i gn t'| | | | | | | |]|] eqn:Hcl; try discriminate.
+    destruct (classify tm allfs c) as [[| | | | | | |i gn t'| | | | | | | | |]|] eqn:Hcl; try discriminate.
     apply Bool.andb_true_iff in Hg as [Hg Ht]. apply String.eqb_eq in Hg, Ht. subst. now exists c, i.
   - apply Bool.andb_true_iff in H as [H Hp]. split; [|now apply existsb_name_in].
     apply existsb_exists in H as (c & Hc & Hex). apply Bool.andb_true_iff in Hex as [Hn Hg]. apply String.eqb_eq in Hn.
-    destruct (classify tm allfs c) as [[| | | | | | | | |i gn t' d| | | | | |]|] eqn:Hcl; try discriminate.
+    destruct (classify tm allfs c) as [[| | | | | | | | |i gn t' d| | | | | | |]|] eqn:Hcl; try discriminate.
     apply Bool.andb_true_iff in Hg as [Hg Ht]. apply String.eqb_eq in Hg, Ht. subst. now exists c, i, d.
   - apply Bool.andb_true_iff in H as [H Hp]. split; [|now apply existsb_name_in].
     apply existsb_exists in H as (c & Hc & Hex). apply Bool.andb_true_iff in Hex as [Hn Hg]. apply String.eqb_eq in Hn.
-    destruct (classify tm allfs c) as [[| | |i g y'| | | | | | | | | | | |]|] eqn:Hcl; try discriminate.
+    destruct (classify tm allfs c) as [[| | |i g y'| | | | | | | | | | | | |]|] eqn:Hcl; try discriminate.
     apply Bool.andb_true_iff in Hg as [Hg Hy]. apply String.eqb_eq in Hg. assert (y' = y) by lia. subst y'.
     exists c, i. repeat split; [exact Hc | exact Hn|].
     pose proof (classify_facts tm allfs c _ Hcl) as F. cbn [kind_facts] in F. destruct F as (_ & _ & _ & _ & Hb & _).
     now rewrite (same_name_same_field f g Hf (bound_field_in c g Hb) Hg) in Hcl.
   - apply existsb_exists in H as (c & Hc & Hex). apply Bool.andb_true_iff in Hex as [Hn Hg]. apply String.eqb_eq in Hn.
-    destruct (classify tm allfs c) as [[| | | | | | | | | | | |i g| | |]|] eqn:Hcl; try discriminate.
+    destruct (classify tm allfs c) as [[| | | | | | | | | | | |i g| | | |]|] eqn:Hcl; try discriminate.
     apply String.eqb_eq in Hg. exists c, i. repeat split; [exact Hc | exact Hn|].
     pose proof (classify_facts tm allfs c _ Hcl) as F. cbn [kind_facts] in F. destruct F as (_ & _ & _ & _ & Hb & _).
     now rewrite (same_name_same_field f g Hf (bound_field_in c g Hb) Hg) in Hcl.
+  - discriminate.
 Qed.
 
 Lemma orderedb_sound : forall fs seen proc, (forall f, In f fs -> In f allfs) -> orderedb seen proc fs = true -> ordered tm allfs seen proc fs.
@@ -124,6 +127,110 @@ Proof.
   constructor; [apply deps_okb_sound; [apply Hin; now left | exact Hf] | | apply IH; [intros g Hg; apply Hin; now right | exact Hr]].
   intros Hfm. apply Bool.orb_true_iff in Hlast as [Hl|Hl]; [|destruct r; [reflexivity|discriminate]].
   exfalso. apply Bool.negb_true_iff in Hl. exact (fill_memberb_false f Hl Hfm).
+Qed.
+
+(* ---- member lists with a union block at the front ---- *)
+Definition armb (ln : string) (w : Z) (f : field) : bool :=
+  match classify tm allfs f with Some (MkArm _ ln' _ i _) => String.eqb ln' ln && (it_size i =? w) | _ => false end.
+Definition arm_link (f : field) : option (string * Z) :=
+  match classify tm allfs f with Some (MkArm _ ln _ i _) => Some (ln, it_size i) | _ => None end.
+
+Fixpoint take_arms (ln : string) (w : Z) (fs : list field) : list field * list field :=
+  match fs with
+  | f :: r => if armb ln w f then let (a, b) := take_arms ln w r in (f :: a, b) else ([], fs)
+  | [] => ([], [])
+  end.
+Fixpoint take_until (ln : string) (fs : list field) : list field * list field :=
+  match fs with
+  | f :: r => if String.eqb (f_name f) ln then ([], fs) else let (a, b) := take_until ln r in (f :: a, b)
+  | [] => ([], [])
+  end.
+
+Lemma take_arms_spec ln w : forall fs a b, take_arms ln w fs = (a, b) -> fs = a ++ b /\ forallb (armb ln w) a = true.
+Proof.
+  induction fs as [|f r IH]; intros a b H; cbn [take_arms] in H.
+  - injection H as <- <-. now split.
+  - destruct (armb ln w f) eqn:Hf; [|injection H as <- <-; now split].
+    destruct (take_arms ln w r) as [a' b'] eqn:Hr. injection H as <- <-. destruct (IH a' b' eq_refl) as [-> Ha]. split; [reflexivity|]. cbn [forallb]. now rewrite Hf, Ha.
+Qed.
+
+Lemma take_until_spec ln : forall fs a b, take_until ln fs = (a, b) -> fs = a ++ b.
+Proof.
+  induction fs as [|f r IH]; intros a b H; cbn [take_until] in H.
+  - now injection H as <- <-.
+  - destruct (String.eqb (f_name f) ln); [now injection H as <- <-|].
+    destruct (take_until ln r) as [a' b'] eqn:Hr. injection H as <- <-. now rewrite (IH a' b' eq_refl).
+Qed.
+
+Fixpoint nodup_z (l : list Z) : bool := match l with [] => true | x :: r => negb (existsb (Z.eqb x) r) && nodup_z r end.
+Lemma nodup_z_sound l : nodup_z l = true -> NoDup l.
+Proof.
+  induction l as [|x r IH]; intros H; [constructor|]. cbn in H. apply Bool.andb_true_iff in H as [Hx Hr]. constructor; [|now apply IH].
+  intros Hin. apply Bool.negb_true_iff in Hx. assert (existsb (Z.eqb x) r = true) by (apply existsb_exists; exists x; split; [exact Hin | apply Z.eqb_refl]). congruence.
+Qed.
+Fixpoint zlist_eqb (a b : list Z) : bool :=
+  match a, b with [], [] => true | x :: a', y :: b' => (x =? y) && zlist_eqb a' b' | _, _ => false end.
+Lemma zlist_eqb_eq a : forall b, zlist_eqb a b = true -> a = b.
+Proof. induction a as [|x a IH]; intros [|y b] H; cbn in H; try discriminate; [reflexivity|]. apply Bool.andb_true_iff in H as [H1 H2]. f_equal; [lia | now apply IH]. Qed.
+
+Definition union_okb (seen : list field) (proc : list string) (arms mid : list field) (lk : field) (post : list field) (w : Z) : bool :=
+  match arms with [] => false | _ => true end
+  && forallb (armb (f_name lk) w) arms
+  && nodup_z (map (arm_const tm allfs) arms)
+  && forallb (fun a => match classify tm allfs a with Some (MkArm _ _ _ _ ys) => zlist_eqb ys (map (arm_const tm allfs) arms) | _ => false end) arms
+  && negb (existsb (String.eqb (f_name lk)) proc)
+  && orderedb seen proc mid
+  && forallb (fun f => negb (fill_memberb f)) mid
+  && match classify tm allfs lk with Some (MkNamed _) => true | _ => false end
+  && orderedb (seen ++ arms ++ mid ++ [lk]) (f_name lk :: rev (map f_name mid) ++ proc) post.
+
+Definition lorderedb (seen : list field) (proc : list string) (fs : list field) : bool :=
+  match fs with
+  | f :: _ =>
+    match arm_link f with
+    | Some (ln, w) =>
+      let (arms, r1) := take_arms ln w fs in
+      let (mid, r2) := take_until ln r1 in
+      match r2 with lk :: post => String.eqb (f_name lk) ln && union_okb seen proc arms mid lk post w | [] => false end
+    | None => orderedb seen proc fs
+    end
+  | [] => true
+  end.
+
+Lemma armb_sound ln w f : armb ln w f = true -> is_arm tm allfs ln w f.
+Proof.
+  unfold armb, is_arm. destruct (classify tm allfs f) as [[]|]; try discriminate. intros H. apply Bool.andb_true_iff in H as [H1 H2].
+  apply String.eqb_eq in H1. subst. do 4 eexists. split; [reflexivity|lia].
+Qed.
+
+Lemma union_okb_sound seen proc arms mid lk post w : (forall f, In f (arms ++ mid ++ lk :: post) -> In f allfs) ->
+  union_okb seen proc arms mid lk post w = true -> union_ok tm allfs seen proc arms mid lk post.
+Proof.
+  intros Hin H. unfold union_okb in H. repeat (apply Bool.andb_true_iff in H as [H ?]).
+  constructor.
+  - destruct arms; [discriminate|discriminate].
+  - exists w. intros a Ha. apply armb_sound. match goal with Hx : forallb (armb _ _) arms = true |- _ => rewrite forallb_forall in Hx; exact (Hx a Ha) end.
+  - now apply nodup_z_sound.
+  - intros a t y i ys Ha Hk. match goal with Hx : forallb (fun a => match classify tm allfs a with _ => _ end) arms = true |- _ => rewrite forallb_forall in Hx; specialize (Hx a Ha) end.
+    rewrite Hk in *. now apply zlist_eqb_eq.
+  - intros Hx. match goal with Hn : negb (existsb _ proc) = true |- _ => apply Bool.negb_true_iff in Hn end.
+    assert (existsb (String.eqb (f_name lk)) proc = true) by (apply existsb_exists; exists (f_name lk); split; [exact Hx | apply String.eqb_refl]). congruence.
+  - apply orderedb_sound; [|assumption]. intros f Hf. apply Hin. apply in_or_app. right. apply in_or_app. now left.
+  - intros f Hf. match goal with Hs : forallb (fun f => negb (fill_memberb f)) mid = true |- _ => rewrite forallb_forall in Hs; specialize (Hs f Hf) end.
+    apply fill_memberb_false. now apply Bool.negb_true_iff.
+  - destruct (classify tm allfs lk) as [[]|]; try discriminate. eauto.
+  - apply orderedb_sound; [|assumption]. intros f Hf. apply Hin. apply in_or_app. right. apply in_or_app. right. now right.
+Qed.
+
+Lemma lorderedb_sound seen proc fs : (forall f, In f fs -> In f allfs) -> lorderedb seen proc fs = true -> lordered tm allfs seen proc fs.
+Proof.
+  intros Hin H. unfold lorderedb in H. destruct fs as [|f r]; [apply lo_plain; constructor|].
+  destruct (arm_link f) as [[ln w]|]; [|apply lo_plain; now apply orderedb_sound].
+  destruct (take_arms ln w (f :: r)) as [arms r1] eqn:Ha. destruct (take_until ln r1) as [mid r2] eqn:Hm.
+  destruct r2 as [|lk post]; [discriminate|]. apply Bool.andb_true_iff in H as [Hn H]. apply String.eqb_eq in Hn.
+  destruct (take_arms_spec ln w _ _ _ Ha) as [Hfs _]. pose proof (take_until_spec ln _ _ _ Hm) as Hr1. subst r1.
+  apply (lo_union tm allfs seen proc (f :: r) arms mid lk post Hfs). apply (union_okb_sound seen proc arms mid lk post w); [|exact H].
+  intros g Hg. apply Hin. now rewrite Hfs.
 Qed.
 
 Definition pos_memberb (f : field) : bool :=
@@ -150,7 +257,7 @@ Definition flat_structb (s : struct) : bool :=
   && match s_disp s with SdAbstract => false | _ => true end
   && nodup_names (map f_name allfs)
   && forallb (fun f => negb (String.eqb (f_name f) "size")) allfs
-  && orderedb allfs [] [] allfs
+  && lorderedb allfs [] [] allfs
   && existsb (pos_memberb allfs) allfs
   && forallb (fun f => negb (fill_memberb allfs f)) allfs.
 
@@ -169,7 +276,7 @@ Proof.
   - exact Hnd.
   - intros f Hf Hn. match goal with Hs : forallb (fun f => negb (String.eqb _ _)) _ = true |- _ => rewrite forallb_forall in Hs; specialize (Hs f Hf) end.
     rewrite Hn in *. discriminate.
-  - apply orderedb_sound; [exact Hnd | auto | assumption].
+  - apply lorderedb_sound; [exact Hnd | auto | assumption].
   - match goal with Hx : existsb _ _ = true |- _ => apply existsb_exists in Hx as (f & Hf & Hex) end.
     exists f. split; [exact Hf | now apply pos_memberb_sound].
   - intros f Hf. match goal with Hs : forallb (fun f => negb (fill_memberb _ f)) _ = true |- _ => rewrite forallb_forall in Hs; specialize (Hs f Hf) end.
@@ -202,7 +309,7 @@ Definition based_structb (s : struct) : bool :=
         && opt_is_size (struct_size_attr a) && opt_is_size (struct_size_attr s)
         && String.eqb (f_name f0) "size" && (0 <? it_size i) && it_unsigned i
         && negb (is_reserved f0) && is_settable allfs f0
-        && orderedb allfs [] ["size"] hrest && orderedb allfs hrest [] own
+        && lorderedb allfs [] ["size"] hrest && lorderedb allfs hrest [] own
         && forallb (fun f => negb (fill_memberb allfs f)) hrest
       | _, _ => false
       end
@@ -229,8 +336,8 @@ Proof.
   - now apply String.eqb_eq.
   - lia.
   - match goal with Hx : negb (is_reserved f0) = true |- _ => now apply Bool.negb_true_iff in Hx end.
-  - apply orderedb_sound; [exact Hnd_all | intros f Hf; rewrite Hall; right; apply in_or_app; now left | assumption].
-  - apply orderedb_sound; [exact Hnd_all | intros f Hf; rewrite Hall; right; apply in_or_app; now right | assumption].
+  - apply lorderedb_sound; [exact Hnd_all | intros f Hf; rewrite Hall; right; apply in_or_app; now left | assumption].
+  - apply lorderedb_sound; [exact Hnd_all | intros f Hf; rewrite Hall; right; apply in_or_app; now right | assumption].
   - intros f Hf. match goal with Hs : forallb (fun f => negb (fill_memberb _ f)) _ = true |- _ => rewrite forallb_forall in Hs; specialize (Hs f Hf) end.
     apply fill_memberb_false. now apply Bool.negb_true_iff.
 Qed.
@@ -247,7 +354,7 @@ Definition based_nosizeb (s : struct) : bool :=
     && nodup_names (map f_name (hfs ++ own))
     && struct_size_attr_none a && struct_size_attr_none s
     && forallb (fun f => negb (String.eqb (f_name f) "size")) allfs
-    && orderedb allfs [] [] hfs && orderedb allfs hfs [] own
+    && lorderedb allfs [] [] hfs && lorderedb allfs hfs [] own
     && existsb (pos_memberb allfs) allfs
     && forallb (fun f => negb (fill_memberb allfs f)) allfs
   | None => false
@@ -267,8 +374,8 @@ Proof.
   - unfold struct_size_attr_none in *. destruct (struct_size_attr s); [discriminate|reflexivity].
   - intros f Hf Hn. match goal with Hs : forallb (fun f => negb (String.eqb _ _)) _ = true |- _ => rewrite forallb_forall in Hs; specialize (Hs f Hf) end.
     rewrite Hn in *. discriminate.
-  - apply orderedb_sound; [exact Hnd_all | intros f Hf; rewrite Hall; apply in_or_app; now left | assumption].
-  - apply orderedb_sound; [exact Hnd_all | intros f Hf; rewrite Hall; apply in_or_app; now right | assumption].
+  - apply lorderedb_sound; [exact Hnd_all | intros f Hf; rewrite Hall; apply in_or_app; now left | assumption].
+  - apply lorderedb_sound; [exact Hnd_all | intros f Hf; rewrite Hall; apply in_or_app; now right | assumption].
   - match goal with Hx : existsb _ _ = true |- _ => apply existsb_exists in Hx as (f & Hf & Hex) end.
     exists f. split; [exact Hf | now apply pos_memberb_sound].
   - intros f Hf. match goal with Hs : forallb (fun f => negb (fill_memberb _ f)) _ = true |- _ => rewrite forallb_forall in Hs; specialize (Hs f Hf) end.
@@ -307,6 +414,12 @@ Definition member_typedb (allfs : list field) (admb : string -> value -> bool) (
   | Some (MkComputed _ gn t _) => match vget self gn with Some v => opt_struct_ofb admb t v | None => false end
   | Some (MkCondNamed t _) => match vget self (f_name f) with Some v => opt_struct_ofb admb t v | None => false end
   | Some (MkCondBytes _ y) => match vget self (f_name f) with Some VNull => true | Some (VBytes b) => negb (Z.of_nat (length b) =? y) | _ => false end
+  | Some (MkArm t ln y _ ys) =>
+    match vget self (f_name f), vget self ln with
+    | Some v, Some (VInt z) =>
+      existsb (Z.eqb z) ys && (if z =? y then match v with VInt _ => admb t v | _ => false end else match v with VNull => true | _ => false end)
+    | _, _ => false
+    end
   | None => false
   end.
 
@@ -419,6 +532,12 @@ Proof.
     exists l. split; [reflexivity|]. split.
     + unfold array_fuel. apply Nat2Z.inj_le. rewrite Z2Nat.id by lia. lia.
     + rewrite forallb_forall in Hall. apply Forall_forall. intros x Hx. apply Hab, Hall, Hx.
+  - destruct (vget self (f_name f)) as [v|]; [|discriminate]. destruct (vget self ln) as [[z| | | |]|]; try discriminate.
+    apply Bool.andb_true_iff in H as [Hin Hv]. apply existsb_exists in Hin as (z' & Hz' & Heq). assert (z' = z) by lia. subst z'.
+    exists v, z. repeat split; try reflexivity; [exact Hz'|].
+    destruct (Z.eqb_spec z y) as [->|Hne].
+    + left. destruct v; try discriminate. repeat split; [eauto | now apply Hab].
+    + right. destruct v; try discriminate. now split.
 Qed.
 
 Lemma factory_okb_sound t a s : lookup_struct tm t = Some a -> factory_okb t a s = true -> factory_ok tm t a s.
